@@ -45,5 +45,7 @@ where
     P: AsRef<Path>,
 {
     let mut writer = File::create(dst).map(Writer::new)?;
-    writer.write_index(index)
+    writer.write_index(index)?;
+    writer.into_inner().finish()?;
+    Ok(())
 }
